@@ -29,6 +29,7 @@ type script struct {
 	Initial     []string `json:"input_root,omitempty"`
 	Produced    []string `json:"produced,omitempty"`
 	Outcome     string   `json:"outcome,omitempty"`
+	IOError     bool     `json:"io_error_during_run,omitempty"`
 }
 
 type commandInput struct {
@@ -413,6 +414,7 @@ type uploadFacts struct {
 	repeated, repeatedNonEmpty, dag bool
 	deep, lenient, nonPlainTarget   bool
 	maxTreeDirs                     int
+	volatileOutput, volatileInDir   bool
 }
 
 // describeOutputs classifies what the model expects for every declared
@@ -428,6 +430,10 @@ func describeOutputs(ci *commandInput, rc *refCommand, root *node) (uf uploadFac
 		if len(loc) > 0 && unreachable(root, loc) {
 			errAllowed = true
 			uf.unreachable = true
+		}
+		if e.Volatile {
+			errAllowed = true // checksum mismatch on upload is the documented answer
+			uf.volatileOutput = true
 		}
 		key := strings.Join(loc, "/")
 		first := !seen[key]
@@ -457,6 +463,10 @@ func describeOutputs(ci *commandInput, rc *refCommand, root *node) (uf uploadFac
 				uf.outDirs++
 			}
 			s := shapeOf(e.Node)
+			if len(volatilePaths(e.Node)) > 0 {
+				errAllowed = true
+				uf.volatileInDir = true
+			}
 			uf.repeated = uf.repeated || s.repeated
 			uf.repeatedNonEmpty = uf.repeatedNonEmpty || s.repeatedNonEmpty
 			uf.dag = uf.dag || s.repeatedDiffDepth
@@ -512,6 +522,8 @@ func (uf uploadFacts) labels() []string {
 	add(uf.maxTreeDirs >= 8, "tree_ge_8_directories")
 	add(uf.lenient, "trailing_slash_on_non_directory")
 	add(uf.nonPlainTarget, "symlink_target_not_normalised")
+	add(uf.volatileOutput, "output_file_rewritten_during_upload")
+	add(uf.volatileInDir, "file_in_output_directory_rewritten_during_upload")
 	return l
 }
 
@@ -602,6 +614,13 @@ func runModelCase(rt *rapid.T, rec *simkit.Recorder, backend string, factory bac
 
 	// Phase 2: the action runs.
 	clobbered := drawAction(rt, root, &rc)
+	if backend == "naive" {
+		// Only the naive build directory reads files through handles the
+		// harness can interpose on.
+		if drawVolatile(rt, root) > 0 {
+			labels = append(labels, "file_rewritten_during_upload")
+		}
+	}
 	sc.Produced = root.render()
 	if sync != nil {
 		if err := sync(root); err != nil {
@@ -653,7 +672,7 @@ func runModelCase(rt *rapid.T, rec *simkit.Recorder, backend string, factory bac
 // real naive build directory on a real file system.
 func TestC10NaiveBuildDirectory(t *testing.T) {
 	base := scratchBase(t)
-	rec := simkit.NewRecorder(t, "C10", "hierarchy_model_naive", "as hierarchy_model, but input root and produced tree are materialised on a real file system (package os: files, chmod, symlinks, mkfifo) and handed to the code as builder.NewNaiveBuildDirectory over a bb-storage local directory; parent directories and 'UploadOutputs does not modify' are judged on the tree read back with package os. "+modelRule)
+	rec := simkit.NewRecorder(t, "C10", "hierarchy_model_naive", "as hierarchy_model, but input root and produced tree are materialised on a real file system (package os: files, chmod, symlinks, mkfifo) and handed to the code as builder.NewNaiveBuildDirectory over a bb-storage local directory; 1 non-empty file in 6 is rewritten in place (same length, all bytes changed) by an interposed file handle the moment its first complete read ends, i.e. between the digest pass and the upload pass of UploadFile -- such a file may be left out (upload fails) but whatever is reported must carry the digest of the bytes the CAS stored (the fake CAS records every Put whose bytes do not hash to its key); parent directories and 'UploadOutputs does not modify' are judged on the tree read back with package os. "+modelRule)
 	rapid.Check(t, func(rt *rapid.T) {
 		runModelCase(rt, rec, "naive", func(rt *rapid.T, cas *fakeCAS, root *node) (builder.BuildDirectory, func(*node) error, func() (*node, error), func(), error) {
 			p, err := newScratchDir(base)
@@ -664,12 +683,16 @@ func TestC10NaiveBuildDirectory(t *testing.T) {
 			if err := materialise(p, root); err != nil {
 				return nil, nil, nil, cleanup, err
 			}
-			d, err := newNaiveDirectory(p, cas)
+			rw := &rewriter{}
+			d, err := newNaiveDirectory(p, cas, rw)
 			if err != nil {
 				return nil, nil, nil, cleanup, err
 			}
 			return d,
-				func(want *node) error { return rematerialise(p, want) },
+				func(want *node) error {
+					rw.set("", volatilePaths(want))
+					return rematerialise(p, want)
+				},
 				func() (*node, error) { return readTree(p) },
 				func() { d.Close(); os.RemoveAll(p) },
 				nil
